@@ -3,8 +3,9 @@ package rules
 import (
 	"fmt"
 	"go/ast"
-	"go/token"
 	"go/types"
+	"sort"
+	"strconv"
 	"strings"
 
 	"osmcheck/core"
@@ -43,8 +44,9 @@ func c10K3(r *core.R) {
 			m.checkDecoder(packed, fi)
 		}
 	}
-	m.checkMaskSwitches()
-	m.checkTypeSwitches()
+	m.checkLookups()
+	m.checkCounts()
+	m.checkDispatch()
 	r.Stat("inlined_calls", m.ev.Inlined)
 	r.Stat("expressions_folded", m.ev.Exprs)
 }
@@ -56,8 +58,8 @@ func (m *c10Model) checkDecoder(packed string, fi *FuncInfo) {
 	name := fi.Name()
 	pos := fi.Decl.Pos()
 	recvT := sig.Recv().Type()
-	if sig.Results().Len() != 1 {
-		return
+	if sig.Results().Len() != 1 || !fi.Obj.Exported() {
+		return // unexported helper methods are covered through the exported methods that call them (inlined)
 	}
 	resT := sig.Results().At(0).Type()
 	if sig.Params().Len() != 0 {
@@ -72,7 +74,7 @@ func (m *c10Model) checkDecoder(packed string, fi *FuncInfo) {
 			switch {
 			case why != "":
 				if strings.Contains(why, "panics") {
-					r.Bad(c, pos, "%s on the id %s of a %s: %s — no case of its `switch id & typeMask` matches the kind mask %s", name, m.inputOf(packed, k), k.Name, why, k.MaskConst)
+					r.Bad(c, pos, "%s on the id %s of a %s: %s — the kind bits %s are not recognised", name, m.inputOf(packed, k), k.Name, why, m.maskName(k))
 				} else {
 					r.Unknown(c, pos, "%s", why)
 				}
@@ -162,243 +164,259 @@ func (m *c10Model) checkDecoder(packed string, fi *FuncInfo) {
 func ptrVal(v c10Val) *c10Val { return &v }
 
 // ---------------------------------------------------------------------------
-// switch tables
+// kind tables, decided by evaluating the whole function for every kind (never by reading a switch)
 
-// caseMeaning classifies the body of a case clause.
-type c10CaseMeaning struct {
-	typeConst types.Object // `return TypeX` / `t = TypeX`
-	resultIdx int          // `namedResult++` -> index of the result, else -1
-	assert    string       // obj.(*T) -> "T"
-	idReturn  bool         // returns a packed id (first result)
-	desc      string
+// roleArgs binds the parameters of an id-related function by type: int64 is the reference, int the version.
+func (m *c10Model) roleArgs(sig *types.Signature) (args []c10Val, hasVer bool, err string) {
+	for i := 0; i < sig.Params().Len(); i++ {
+		p := sig.Params().At(i)
+		switch {
+		case types.Identical(p.Type(), types.Typ[types.Int64]):
+			args = append(args, m.refInput(p.Type()))
+		case types.Identical(p.Type(), types.Typ[types.Int]):
+			args = append(args, m.verInput(p.Type()))
+			hasVer = true
+		default:
+			return nil, false, "parameter " + p.Name() + " of type " + p.Type().String() + " has no role in the id scheme"
+		}
+	}
+	return args, hasVer, ""
 }
 
-func (m *c10Model) caseMeaning(fi *FuncInfo, cc *ast.CaseClause) (c10CaseMeaning, bool) {
-	out := c10CaseMeaning{resultIdx: -1}
-	resultIndex := func(o types.Object) int {
-		rs := fi.Obj.Type().(*types.Signature).Results()
-		for i := 0; i < rs.Len(); i++ {
-			if types.Object(rs.At(i)) == o {
-				return i
-			}
-		}
-		return -1
-	}
-	isTypeConst := func(e ast.Expr) types.Object {
-		if o, ok := objOf(m.info, e).(*types.Const); ok && m.localName(o.Type()) == "Type" {
-			return o
-		}
-		return nil
-	}
-	if len(cc.Body) == 0 {
-		return out, false
-	}
-	last := cc.Body[len(cc.Body)-1]
-	switch s := last.(type) {
-	case *ast.ReturnStmt:
-		if len(s.Results) >= 1 {
-			if o := isTypeConst(s.Results[0]); o != nil && len(s.Results) == 1 && len(cc.Body) == 1 {
-				out.typeConst, out.desc = o, "return "+o.Name()
-				return out, true
-			}
-			if m.isPacked(m.info.TypeOf(s.Results[0])) {
-				out.idReturn, out.desc = true, c10Src(m.r, s)
-				return out, true
-			}
-		}
-	case *ast.AssignStmt:
-		if len(cc.Body) == 1 && len(s.Lhs) == 1 && len(s.Rhs) == 1 && s.Tok == token.ASSIGN {
-			if o := isTypeConst(s.Rhs[0]); o != nil {
-				out.typeConst, out.desc = o, c10Src(m.r, s)
-				return out, true
-			}
-			// x = append(x, obj.(*T)) / x = obj.(*T)
-			var ta *ast.TypeAssertExpr
-			ast.Inspect(s.Rhs[0], func(n ast.Node) bool {
-				if t, ok := n.(*ast.TypeAssertExpr); ok && t.Type != nil {
-					ta = t
-				}
-				return true
-			})
-			if ta != nil {
-				if n := m.localName(m.info.TypeOf(ta.Type)); n != "" {
-					out.assert, out.desc = n, c10Src(m.r, ta)
-					return out, true
-				}
-			}
-		}
-	case *ast.IncDecStmt:
-		if len(cc.Body) == 1 && s.Tok == token.INC {
-			if i := resultIndex(objOf(m.info, s.X)); i >= 0 {
-				out.resultIdx, out.desc = i, c10Src(m.r, s)
-				return out, true
-			}
+// lookups are the methods of Type that return (packed id, error): the kind lookup of the parsers.
+func (m *c10Model) lookups() []*FuncInfo {
+	var out []*FuncInfo
+	for _, fi := range m.methodsOf("Type") {
+		sig := fi.Obj.Type().(*types.Signature)
+		if sig.Results().Len() == 2 && m.isPacked(sig.Results().At(0).Type()) && c10IsError(sig.Results().At(1).Type()) {
+			out = append(out, fi)
 		}
 	}
-	return out, false
+	return out
 }
 
-// checkMaskSwitches: every `switch X & typeMask` maps each kind mask to the Type constant of that kind.
-func (m *c10Model) checkMaskSwitches() {
+// evalLookup evaluates a kind lookup for one kind text.
+func (m *c10Model) evalLookup(fi *FuncInfo, text string) (id c10Val, err c10Val, why string) {
+	sig := fi.Obj.Type().(*types.Signature)
+	args, _, e := m.roleArgs(sig)
+	if e != "" {
+		return id, err, e
+	}
+	outs := m.ev.call(fi.Decl, ptrVal(c10StrVal(text)), args, 1)
+	for _, o := range outs {
+		if o.Unsupported != "" {
+			return id, err, fi.Name() + ": outside the interpreted statement forms: " + o.Unsupported
+		}
+	}
+	if len(outs) != 1 {
+		return id, err, fmt.Sprintf("%s has %d outcomes depending on undecided conditions", fi.Name(), len(outs))
+	}
+	if outs[0].Panic {
+		return id, err, fi.Name() + " panics (" + outs[0].PanicWhy + ")"
+	}
+	if len(outs[0].Res) != 2 {
+		return id, err, fi.Name() + " does not return (id, error)"
+	}
+	return outs[0].Res[0], outs[0].Res[1], ""
+}
+
+// checkLookups: Type.FeatureID / Type.objectID map the text of every kind the packed type can hold to the K2 id
+// of that kind with a nil error, and every other text (the other kinds, any unknown text) to a non-nil error.
+func (m *c10Model) checkLookups() {
 	r := m.r
-	tm := m.cobj["typeMask"]
-	feature := m.kindsOf("FeatureID")
-	n := 0
-	for _, fi := range m.funcs {
-		ast.Inspect(fi.Decl.Body, func(nd ast.Node) bool {
-			sw, ok := nd.(*ast.SwitchStmt)
-			if !ok || sw.Tag == nil {
-				return true
-			}
-			be, ok := ast.Unparen(sw.Tag).(*ast.BinaryExpr)
-			if !ok || be.Op != token.AND || (objOf(m.info, be.X) != types.Object(tm) && objOf(m.info, be.Y) != types.Object(tm)) {
-				return true
-			}
-			n++
-			for _, cs := range sw.Body.List {
-				cc := cs.(*ast.CaseClause)
-				if cc.List == nil {
-					continue
-				}
-				for _, ce := range cc.List {
-					u, isConst := constInt(m.info, ce)
-					k := m.kindByMask(uint64(u))
-					if !isConst || k == nil {
-						r.Bad("switch@"+fi.Name()+" case "+c10Src(r, ce), ce.Pos(), "case value %s of `switch %s` is not one of the seven kind masks", c10Src(r, ce), c10Src(r, sw.Tag))
-						continue
-					}
-					c := "switch@" + fi.Name() + " case " + k.Name
-					mean, ok := m.caseMeaning(fi, cc)
-					switch {
-					case !ok || (mean.typeConst == nil && mean.resultIdx < 0):
-						r.Unknown(c, cc.Pos(), "case body is not `return TypeX`, `t = TypeX` or `namedResult++`; cannot read the table entry")
-					case mean.typeConst != nil && mean.typeConst == types.Object(k.typeObj):
-						r.OK(c, cc.Pos(), "%s -> %s, the Type of the kind whose constructor uses %s", k.MaskConst, k.TypeConst, k.MaskConst)
-					case mean.typeConst != nil:
-						r.Bad(c, cc.Pos(), "`case %s: %s`: ids built with %s are %s ids (Type constant %s); this table names them %s", k.MaskConst, mean.desc, k.MaskConst, k.Name, k.TypeConst, mean.typeConst.Name())
-					case mean.resultIdx < len(feature) && feature[mean.resultIdx] == k:
-						r.OK(c, cc.Pos(), "%s increments result #%d, the %s counter", k.MaskConst, mean.resultIdx, k.Name)
-					default:
-						r.Bad(c, cc.Pos(), "`case %s: %s` increments result #%d; the results are (nodes, ways, relations) and %s is the %s mask", k.MaskConst, mean.desc, mean.resultIdx, k.MaskConst, k.Name)
-					}
-				}
-			}
-			return true
-		})
+	ls := m.lookups()
+	if len(ls) == 0 {
+		r.Anchor("a method of Type returning (packed id, error)")
+		return
 	}
-	if n == 0 {
-		r.Anchor("any `switch id & typeMask`")
+	for _, fi := range ls {
+		sig := fi.Obj.Type().(*types.Signature)
+		packed := m.localName(sig.Results().At(0).Type())
+		_, hasVer, _ := m.roleArgs(sig)
+		member := map[*c10Kind]bool{}
+		for _, k := range m.kindsOf(packed) {
+			member[k] = true
+		}
+		m.ev.resetScenario()
+		type probe struct {
+			c, text string
+			k       *c10Kind
+		}
+		var probes []probe
+		for _, k := range m.kinds {
+			probes = append(probes, probe{"lookup@" + fi.Name() + " kind=" + k.Name, m.typeText(k), k})
+		}
+		probes = append(probes, probe{"lookup@" + fi.Name() + " unknown kind", c10Generic + "kind", nil})
+		done := map[string]bool{}
+		for i := 0; i < len(probes); i++ {
+			p := probes[i]
+			done[p.text] = true
+			id, err, why := m.evalLookup(fi, p.text)
+			pos := fi.Decl.Pos()
+			shown := c10StrVal(p.text).String()
+			switch {
+			case why != "":
+				r.Unknown(p.c, pos, "%s", why)
+			case p.k != nil && member[p.k]:
+				withVer := packed != "FeatureID" && p.k.Versioned && hasVer
+				if err.K != c10VNil {
+					r.Bad(p.c, pos, "%s(%s) returns the error %s: the kind %s is not recognised although %s holds %s ids", fi.Name(), shown, err, p.k.Name, packed, p.k.Name)
+				} else if m.verdict(p.c, pos, id, "", m.shape(p.k, withVer), fmt.Sprintf("%s of the kind text %s", fi.Name(), shown)) {
+					r.OK(p.c, pos, "%s(%s) = (%s, nil), the %s id; Type() maps it back to %s", fi.Name(), shown, id.V, p.k.Name, p.k.TypeConst)
+				}
+			case err.K == c10VErr:
+				r.OK(p.c, pos, "%s(%s) returns a non-nil error: %s holds no such kind", fi.Name(), shown, packed)
+			case err.K == c10VNil:
+				r.Bad(p.c, pos, "%s(%s) returns (%s, nil): text naming a kind that %s cannot hold yields an id instead of an error", fi.Name(), shown, id, packed)
+			default:
+				r.Unknown(p.c, pos, "%s(%s): the error result %s is neither nil nor provably non-nil", fi.Name(), shown, err)
+			}
+			// every string constant the kind text was compared with is a kind text of its own
+			if i == len(probes)-1 {
+				var extra []string
+				for lit := range m.ev.cmpStrs {
+					if !done[lit] {
+						extra = append(extra, lit)
+					}
+				}
+				sort.Strings(extra)
+				for _, lit := range extra {
+					done[lit] = true
+					probes = append(probes, probe{"lookup@" + fi.Name() + " text " + strconv.Quote(lit), lit, nil})
+				}
+			}
+		}
 	}
-	r.Stat("mask_switches", n)
+	m.ev.resetScenario()
+	r.Stat("kind_lookups", len(ls))
 }
 
-// checkTypeSwitches: every switch over a Type value in an id-related function (it returns a packed id, or
-// its tag is T.Type() of a packed id) maps each Type constant to the constructor / counter / struct of that kind.
-func (m *c10Model) checkTypeSwitches() {
+// checkCounts: the Counts methods of the id lists count an id of each kind in the result of that kind.
+func (m *c10Model) checkCounts() {
 	r := m.r
 	feature := m.kindsOf("FeatureID")
 	n := 0
 	for _, fi := range m.funcs {
 		sig := fi.Obj.Type().(*types.Signature)
-		returnsID := sig.Results().Len() >= 1 && m.isPacked(sig.Results().At(0).Type())
-		ast.Inspect(fi.Decl.Body, func(nd ast.Node) bool {
-			sw, ok := nd.(*ast.SwitchStmt)
-			if !ok || sw.Tag == nil || m.localName(m.info.TypeOf(sw.Tag)) != "Type" {
-				return true
+		if sig.Recv() == nil || !fi.Obj.Exported() || sig.Params().Len() != 0 || sig.Results().Len() != len(feature) {
+			continue
+		}
+		sl, ok := sig.Recv().Type().Underlying().(*types.Slice)
+		if !ok || !m.isPacked(sl.Elem()) {
+			continue
+		}
+		allInt := true
+		for i := 0; i < sig.Results().Len(); i++ {
+			if !types.Identical(sig.Results().At(i).Type(), types.Typ[types.Int]) {
+				allInt = false
 			}
-			tagFromID := false
-			if call, ok := ast.Unparen(sw.Tag).(*ast.CallExpr); ok {
+		}
+		if !allInt {
+			continue
+		}
+		n++
+		packed := m.localName(sl.Elem())
+		idOf := func(k *c10Kind) c10Val { return c10IntVal(m.vecOf(sl.Elem(), m.inputOf(packed, k))) }
+		run := func(c string, elems []c10Val, want []int64, what string) {
+			outs := m.ev.call(fi.Decl, ptrVal(c10SliceVal(elems)), nil, 1)
+			res, why := c10Single(outs, fi.Name())
+			_ = res
+			if why != "" {
+				r.Unknown(c, fi.Decl.Pos(), "%s", why)
+				return
+			}
+			var got []string
+			okAll := len(outs[0].Res) == len(want)
+			for i, v := range outs[0].Res {
+				got = append(got, v.String())
+				if x, isC := v.V.signedConst(); v.K != c10VInt || !isC || i >= len(want) || x != want[i] {
+					okAll = false
+				}
+			}
+			if okAll {
+				r.OK(c, fi.Decl.Pos(), "%s of %s = %v for every ref, version", fi.Name(), what, want)
+			} else {
+				r.Bad(c, fi.Decl.Pos(), "%s of %s = (%s), must be %v (nodes, ways, relations): ids are counted under the wrong kind", fi.Name(), what, strings.Join(got, ", "), want)
+			}
+		}
+		var mixed []c10Val
+		wantMixed := make([]int64, len(feature))
+		for i, k := range feature {
+			want := make([]int64, len(feature))
+			want[i] = 1
+			run("counts@"+fi.Name()+" kind="+k.Name, []c10Val{idOf(k)}, want, "one "+k.Name+" id")
+			for j := 0; j <= i; j++ {
+				mixed = append(mixed, idOf(k))
+			}
+			wantMixed[i] = int64(i + 1)
+		}
+		run("counts@"+fi.Name()+" mixed", mixed, wantMixed, "1 node, 2 way and 3 relation ids")
+	}
+	if n == 0 {
+		r.Anchor("a Counts method on a list of packed ids")
+	}
+	r.Stat("count_methods", n)
+}
+
+// checkDispatch: exported functions that take an Object and branch on the Type() decoded from its id
+// (today (*OSM).Append) must not panic for an object of any kind: the decoded kind selects the struct.
+func (m *c10Model) checkDispatch() {
+	r := m.r
+	n := 0
+	for _, fi := range m.funcs {
+		sig := fi.Obj.Type().(*types.Signature)
+		if !fi.Obj.Exported() || sig.Params().Len() != 1 {
+			continue
+		}
+		iface, ok := sig.Params().At(0).Type().Underlying().(*types.Interface)
+		if !ok || m.localName(sig.Params().At(0).Type()) == "" {
+			continue
+		}
+		usesType := false
+		inspectNoLit(fi.Decl.Body, func(nd ast.Node) bool {
+			if call, ok := nd.(*ast.CallExpr); ok {
 				if fn := callee(m.info, call); fn != nil && fn.Name() == "Type" {
 					if rc := fn.Type().(*types.Signature).Recv(); rc != nil && m.isPacked(rc.Type()) {
-						tagFromID = true
-					}
-				}
-			}
-			if !returnsID && !tagFromID {
-				return true
-			}
-			n++
-			for _, cs := range sw.Body.List {
-				cc := cs.(*ast.CaseClause)
-				if cc.List == nil {
-					continue
-				}
-				for _, ce := range cc.List {
-					k := m.kindByTypeConst(objOf(m.info, ce))
-					if k == nil {
-						r.Unknown("switch@"+fi.Name()+" case "+c10Src(r, ce), ce.Pos(), "case value is not one of the seven Type constants")
-						continue
-					}
-					c := "switch@" + fi.Name() + " case " + k.Name
-					mean, ok := m.caseMeaning(fi, cc)
-					switch {
-					case !ok || mean.typeConst != nil:
-						r.Unknown(c, cc.Pos(), "case body is not `return <id constructor>`, `namedResult++` or an assignment of obj.(*T); cannot read the table entry")
-					case mean.idReturn:
-						m.checkTypeCaseReturn(fi, cc, k, c)
-					case mean.resultIdx >= 0:
-						if mean.resultIdx < len(feature) && feature[mean.resultIdx] == k {
-							r.OK(c, cc.Pos(), "%s increments result #%d, the %s counter", k.TypeConst, mean.resultIdx, k.Name)
-						} else {
-							r.Bad(c, cc.Pos(), "`case %s: %s` increments result #%d; the results are (nodes, ways, relations)", k.TypeConst, mean.desc, mean.resultIdx)
-						}
-					case mean.assert != "":
-						if mean.assert == k.Struct {
-							r.OK(c, cc.Pos(), "%s -> %s, and (*%s).ObjectID() is a %s id (K2)", k.TypeConst, mean.desc, k.Struct, k.Name)
-						} else {
-							r.Bad(c, cc.Pos(), "`case %s` asserts %s, but objects whose id decodes to %s are *%s: the assertion panics", k.TypeConst, mean.desc, k.TypeConst, k.Struct)
-						}
+						usesType = true
 					}
 				}
 			}
 			return true
 		})
-	}
-	if n == 0 {
-		r.Anchor("any switch over Type in an id function")
-	}
-	r.Stat("type_switches", n)
-}
-
-// checkTypeCaseReturn interprets the case body with ref/version inputs and requires the K2 id of kind k.
-func (m *c10Model) checkTypeCaseReturn(fi *FuncInfo, cc *ast.CaseClause, k *c10Kind, c string) {
-	r := m.r
-	sig := fi.Obj.Type().(*types.Signature)
-	env := c10Env{}
-	hasVer := false
-	for i := 0; i < sig.Params().Len(); i++ {
-		p := sig.Params().At(i)
-		switch {
-		case types.Identical(p.Type(), types.Typ[types.Int64]):
-			env[p] = m.refInput(p.Type())
-		case types.Identical(p.Type(), types.Typ[types.Int]):
-			env[p] = m.verInput(p.Type())
-			hasVer = true
+		if !usesType {
+			continue
 		}
-	}
-	if fi.Decl.Recv != nil && len(fi.Decl.Recv.List) == 1 && len(fi.Decl.Recv.List[0].Names) == 1 {
-		ro := m.info.Defs[fi.Decl.Recv.List[0].Names[0]]
-		rt := sig.Recv().Type()
-		if nt := c10Named(m.pk, m.localName(rt)); nt != nil && ro != nil {
-			if st, ok := nt.Underlying().(*types.Struct); ok {
-				env[ro] = m.receiverStruct(st, k)
-			} else if m.localName(rt) == "Type" {
-				env[ro] = c10StrVal(m.typeText(k))
+		n++
+		for _, k := range m.kinds {
+			nt := c10Named(m.pk, k.Struct)
+			st, _ := nt.Underlying().(*types.Struct)
+			dyn := types.NewPointer(nt)
+			if st == nil || !types.Implements(dyn, iface) {
+				continue
+			}
+			c := "dispatch@" + fi.Name() + " kind=" + k.Name
+			arg := c10Val{K: c10VDyn, Dyn: dyn, Args: []c10Val{m.receiverStruct(st, k)}}
+			outs := m.ev.call(fi.Decl, ptrVal(c10OpaqueVal("receiver")), []c10Val{arg}, 1)
+			bad, unk := "", ""
+			for _, o := range outs {
+				switch {
+				case o.Unsupported != "":
+					unk = o.Unsupported
+				case o.Panic:
+					bad = o.PanicWhy
+				}
+			}
+			switch {
+			case unk != "":
+				r.Unknown(c, fi.Decl.Pos(), "%s with a *%s: outside the interpreted statement forms: %s", fi.Name(), k.Struct, unk)
+			case bad != "":
+				r.Bad(c, fi.Decl.Pos(), "%s with a *%s (whose id decodes to %s) panics: %s", fi.Name(), k.Struct, k.TypeConst, bad)
+			default:
+				r.OK(c, fi.Decl.Pos(), "%s with a *%s: the kind decoded from its id selects the %s branch, no panic", fi.Name(), k.Struct, k.Name)
 			}
 		}
 	}
-	outs, cont := m.ev.execList(cc.Body, c10State{env: env}, 1)
-	if len(cont) > 0 {
-		r.Unknown(c, cc.Pos(), "case body does not end in a return on every path")
-		return
-	}
-	got, why := c10Single(outs, "case "+k.TypeConst+" of "+fi.Name())
-	resPacked := m.localName(sig.Results().At(0).Type())
-	withVer := resPacked != "FeatureID" && k.Versioned && hasVer
-	want := m.shape(k, withVer)
-	if m.verdict(c, cc.Pos(), got, why, want, fmt.Sprintf("`case %s` must build the %s id", k.TypeConst, k.Name)) {
-		r.OK(c, cc.Pos(), "%s -> %s, the %s id; the mask switches map %s back to %s", k.TypeConst, got.V, k.Name, k.MaskConst, k.TypeConst)
-	}
+	r.Stat("kind_dispatchers", n)
 }
 
 var _ = core.ModulePath
